@@ -385,6 +385,48 @@ func genSpecForX(p *packages.Package, pc *PkgContracts, executable bool) (string
 		}
 		return out
 	}
+	pc.assertVars = func(fs *FuncSpec, ab *AssertBefore) []localVar {
+		fd := findDecl(p, fs)
+		if fd == nil || fd.Body == nil {
+			return nil
+		}
+		anchor := findAnchorStmt(p.Fset, fd, ab.Anchor)
+		if anchor == nil {
+			return nil
+		}
+		used := map[string]bool{}
+		toks, _ := scanSpec(ab.Clause.Text)
+		for _, tk := range toks {
+			if tk.tok == token.IDENT {
+				used[tk.lit] = true
+			}
+		}
+		seen := map[string]bool{}
+		for _, prm := range fs.allParams() {
+			seen[prm.Name] = true
+		}
+		var objs []*types.Var
+		for id, obj := range p.TypesInfo.Defs {
+			v, ok := obj.(*types.Var)
+			if !ok || v.IsField() || id.Pos() < fd.Pos() || id.Pos() > fd.End() {
+				continue
+			}
+			if !used[v.Name()] || v.Pos() >= anchor.Pos() || v.Parent() == nil || !v.Parent().Contains(anchor.Pos()) {
+				continue
+			}
+			objs = append(objs, v)
+		}
+		sort.Slice(objs, func(i, j int) bool { return objs[i].Pos() > objs[j].Pos() })
+		var out []localVar
+		for _, v := range objs {
+			if seen[v.Name()] {
+				continue
+			}
+			seen[v.Name()] = true
+			out = append(out, localVar{v.Name(), types.TypeString(v.Type(), qual)})
+		}
+		return out
+	}
 	// first pass to discover extra imports needed by local types
 	if _, err := pc.genSpecFileX(imports, locals, executable); err != nil {
 		return "", err
@@ -430,4 +472,29 @@ func loopBody(s ast.Stmt) *ast.BlockStmt {
 		return s.Body
 	}
 	return nil
+}
+
+// findAnchorStmt: the first (innermost simple) statement of fd whose source text contains anchor.
+func findAnchorStmt(fset *token.FileSet, fd *ast.FuncDecl, anchor string) ast.Stmt {
+	p0 := fset.Position(fd.Pos())
+	data, err := os.ReadFile(p0.Filename)
+	if err != nil {
+		return nil
+	}
+	var found ast.Stmt
+	ast.Inspect(fd.Body, func(n ast.Node) bool {
+		st, ok := n.(ast.Stmt)
+		if !ok || found != nil {
+			return found == nil
+		}
+		switch st.(type) {
+		case *ast.AssignStmt, *ast.ExprStmt, *ast.ReturnStmt, *ast.IncDecStmt, *ast.DeclStmt, *ast.DeferStmt, *ast.GoStmt:
+			a, b := fset.Position(st.Pos()).Offset, fset.Position(st.End()).Offset
+			if a >= 0 && b <= len(data) && strings.Contains(string(data[a:b]), anchor) {
+				found = st
+			}
+		}
+		return found == nil
+	})
+	return found
 }
